@@ -664,9 +664,23 @@ def systematic_settings():
     return out
 
 
+# Objects yaqlized one by one (settings on the INSTANCE) are all instances of one shared probe class, as in a
+# host that yaqlizes the objects of its own classes with per-object settings: the decision for one object must
+# not depend on what was granted to another object of the same class before.  Class-level settings get a fresh
+# class each (the class is the settings holder).
+SHARED = dict(cls=None, seen=[])
+
+
+def shared_class(fresh=False):
+    if fresh or SHARED['cls'] is None:
+        SHARED['cls'] = make_probe_class()
+    return SHARED['cls']
+
+
 def install(s):
     """a fresh probe object yaqlized with the settings (on the instance or on its class)"""
-    cls = make_probe_class()
+    per_instance = s.get('yaqlized', True) is not False and not s['byclass']
+    cls = shared_class() if per_instance else make_probe_class()
     kw = dict(yaqlize_attributes=s['attrs'], yaqlize_methods=s['methods'], yaqlize_indexer=s['indexer'],
               auto_yaqlize_result=s['auto'],
               whitelist=[py_entry(e) for e in s['whitelist']] or None,
@@ -809,6 +823,28 @@ def expected_from_model(m, form, with_child, child_model):
     return log, [], None
 
 
+def history_for(s, form, name, with_child, fkey):
+    """None when the failure shows on a fresh class too; else earlier settings s0 such that asking an object with s0
+    and then one with s (both of one fresh class) reproduces it ({} when no such pair is found)"""
+    keep = SHARED['cls']
+    try:
+        def fails_after(prior):
+            shared_class(fresh=True)
+            for p0 in prior:
+                observe(p0, form, name, with_child)
+            r2 = common.Result()
+            check_settings(s, None, r2, dict(forms={}, outcomes={}, samples=9), (name, form, with_child))
+            return any(g.key == fkey for g in r2.failures)
+        if fails_after([]):
+            return None
+        for s0 in reversed(SHARED['seen'][-400:]):
+            if s0 is not s and fails_after([s0]):
+                return s0
+        return {}
+    finally:
+        SHARED['cls'] = keep
+
+
 def check_settings(s, drv, res, hist, replay_filter=None):
     """cross one settings object with every name x form; returns number of evaluations"""
     n = 0
@@ -888,6 +924,13 @@ def check_settings(s, drv, res, hist, replay_filter=None):
                             o['text'], 'deny' if denied is False else 'allow', o['out'][:80])
                         fkey = 'decision'
                 if what is not None:
+                    if s.get('yaqlized', True) is not False and not s['byclass'] and not replay_filter:
+                        # does the failure need the earlier objects of the shared class?  find a two-step history
+                        before = history_for(s, form, name, with_child, fkey)
+                        if before is not None:
+                            case['before'] = before
+                            what += '   [only after another object of the same class, yaqlized with %s, was asked for the ' \
+                                    'same name]' % json.dumps(before, sort_keys=True)
                     res.fail('oracle', fkey, what + '   settings %s' % json.dumps(s, sort_keys=True), case)
                     continue
                 # ---- correspondence with the Lean model
@@ -951,6 +994,11 @@ def run_settings(env, res, only=None):
     for s in todo:
         before = len(res.failures)
         flt = (only['name'], only['form'], only.get('with_child', False)) if only and only.get('form') else None
+        if only and only.get('before'):
+            shared_class(fresh=True)
+            observe(only['before'], only['form'], only['name'], only.get('with_child', False))
+        if s.get('yaqlized', True) is not False and not s['byclass']:
+            SHARED['seen'].append(s)
         hist['evaluations'] += check_settings(s, drv, res, hist, flt)
         hist['settings'] += 1
         for e in s['whitelist'] + s['blacklist']:
